@@ -70,9 +70,10 @@ class ModelEngine(object):
         db.generate_mapping()
         self.paramstyle = db.provider.paramstyle
         self.sub = dm.Substrate(dialect, extended=True)
+        # the tables, under the names and with the column types this dialect's provider generates (SQLite derives the column
+        # affinity from the declared type: INTEGER, TEXT/VARCHAR -> TEXT, DOUBLE [PRECISION] -> REAL, BOOLEAN/DECIMAL/DATE -> NUMERIC)
         for t in db.schema.tables.values():
-            cols = ', '.join('"%s" %s%s' % (c.name, c.sql_type, ' PRIMARY KEY' if (c.is_pk and c.is_pk != 'auto' and len(t.pk_index.col_names if hasattr(t.pk_index, 'col_names') else [1]) == 1) else '')
-                             for c in t.column_list)
+            cols = ', '.join('"%s" %s' % (c.name, c.sql_type) for c in t.column_list)
             self.sub.con.execute('create table "%s" (%s)' % (t.name, cols))
         db._exec_sql = self._exec_sql          # instance attribute: shadows CaptureDatabase._exec_sql
         self.last = None
